@@ -1,0 +1,7 @@
+//go:build !verif
+
+package rueidis
+
+// verifPoint marks a schedule point for the verification harness; it compiles to nothing
+// unless the verif build tag is set.
+func verifPoint(string) {}
